@@ -257,13 +257,16 @@ func runC03(r *core.Run) {
 						r.Violate("first-use", "panic", fmt.Sprintf("first XYZ conversion panicked: %v", p), c03Case{Kind: "first-use"})
 					}
 				}()
-				for si, s := range libSpaces {
+				for si := range libSpaces {
+					s := libSpaces[si]
+					if strings.Contains(r.Variant, "cross") {
+						// goroutine g starts with space g mod 4: the first uses of different spaces overlap
+						s = libSpaces[(si+g)%len(libSpaces)]
+					}
 					// a spin barrier in front of every space, so that the eight first calls into
 					// that space's conversion arrive within a fraction of a microsecond of one another
-					arrive[si].Add(1)
-					for arrive[si].Load() < 8 {
-						runtime.Gosched()
-					}
+					// the reference is computed before the barrier, so that the library call is the first
+					// thing every goroutine does after it
 					rr, gg, bb, ww := c04DeclXY(s)
 					ref, ok := refcolor.RGBToXYZ(rr, gg, bb, ww)
 					if !ok {
@@ -272,6 +275,19 @@ func runC03(r *core.Run) {
 					refInv, _ := ref.Inv()
 					in := [3]float32{0.25 + float32(g)/16, 0.5, 0.75 - float32(g)/16}
 					v := refcolor.Vec{float64(in[0]), float64(in[1]), float64(in[2])}
+					arrive[si].Add(1)
+					for arrive[si].Load() < 8 {
+						if runtime.GOMAXPROCS(0) < 8 {
+							runtime.Gosched()
+						}
+					}
+					if k := fineStep(r.Variant); k > 0 {
+						x := 0
+						for i := 0; i < g*k; i++ {
+							x += i ^ g
+						}
+						fineSink.Add(int64(x & 1))
+					}
 					check := func(dir string, got [3]float32, want refcolor.Vec) {
 						for i := 0; i < 3; i++ {
 							if !(math.Abs(float64(got[i])-want[i]) <= 1e-5) {
@@ -453,6 +469,12 @@ func runC03(r *core.Run) {
 					if kind != "" {
 						r.Violate("point", s.Name+"/"+kind+"/large", msg, c03Case{s.Name, kind, in, nil})
 					}
+					// ... and an ordinary colour immediately afterwards (nothing of a huge operand may be
+					// left in whatever the conversion keeps between calls)
+					small := [3]float32{float32(rg.Uniform(0, 1)), float32(rg.Uniform(0, 1)), float32(rg.Uniform(0, 1))}
+					if kind, msg, _ := c03Point(s, &p, small); kind != "" {
+						r.Violate("point", s.Name+"/"+kind+"/after-large", msg+fmt.Sprintf(" (converted right after %v)", in), c03Case{s.Name, kind, small, nil})
+					}
 				}
 			}
 			r.AddEvals(nb * 4)
@@ -575,10 +597,10 @@ func runC03(r *core.Run) {
 		}
 	}
 	if r.Variant == "" {
-		for _, v := range append([]string{"xyzfirst", "xyzfirst+rev@2", "rev@1", "warm@2", "decfirst+encfirst@1", "genfirst@2", "genfirst+xyzfirst+rev@1", "rot1+genfirst@1", "rot2+genfirst+xyzfirst@3", "burst+xyzfirst@4", "burst+xyzfirst+stagger@8"}, burstVariants...) {
+		for _, v := range append([]string{"xyzfirst", "xyzfirst+rev@2", "rev@1", "warm@2", "decfirst+encfirst@1", "genfirst@2", "genfirst+xyzfirst+rev@1", "rot1+genfirst@1", "rot2+genfirst+xyzfirst@3", "burst+cross@8", "burst+cross+xyzfirst@16", "burst+cross+stagger@4", "burst+cross+rev@16", "burst+cross+xyzfirst+rev@8", "burst+cross@2", "burst+cross+fine10@16", "burst+cross+fine60@8", "burst+cross+fine250+xyzfirst@16", "burst+cross+fine30+rev@8", "burst+xyzfirst@4", "burst+xyzfirst+stagger@8"}, burstVariants...) {
 			r.RunVariantChild(v, 10*time.Minute, false)
 		}
-		r.Obs("fresh_process_variants", []string{"xyzfirst", "xyzfirst+rev@2", "rev@1", "warm@2", "decfirst+encfirst@1", "genfirst@2", "genfirst+xyzfirst+rev@1", "rot1+genfirst@1", "rot2+genfirst+xyzfirst@3"})
+		r.Obs("fresh_process_variants", []string{"xyzfirst", "xyzfirst+rev@2", "rev@1", "warm@2", "decfirst+encfirst@1", "genfirst@2", "genfirst+xyzfirst+rev@1", "rot1+genfirst@1", "rot2+genfirst+xyzfirst@3", "burst+cross@8", "burst+cross+xyzfirst@16", "burst+cross+stagger@4", "burst+cross+rev@16", "burst+cross+xyzfirst+rev@8", "burst+cross@2", "burst+cross+fine10@16", "burst+cross+fine60@8", "burst+cross+fine250+xyzfirst@16", "burst+cross+fine30+rev@8"})
 	}
 	r.Obs("max_coefficient_error_per_space", maxCoef)
 	r.Obs("max_scaled_linearity_or_roundtrip_error_per_space", worst)
